@@ -125,7 +125,11 @@ def gen_constraints(rng, col):
             else:
                 ks.append({'kind': 'allowed_values', 'value': rng.choice([['a', 'b'], [0, 1], [True]])})
         else:
-            ks.append({'kind': 'rex', 'value': [rng.choice(REX_POOL) for _ in range(rng.randint(1, 2))]})
+            pool = REX_POOL
+            if ftype == 'string' and any(isinstance(s_, str) and '\n' in s_ for s_ in nn) and rng.random() < 0.6:
+                # values with line breaks: expressions whose dot has to cross them (matching is done with DOTALL)
+                pool = [r'^.*$', r'^.+$', r'^.$', r'^[a-z]+.[a-z]+$', r'^.*k$', r'^[a-z]+$']
+            ks.append({'kind': 'rex', 'value': [rng.choice(pool) for _ in range(rng.randint(1, 2))]})
     # one constraint per kind (dict keyed by kind)
     seen = set()
     out = []
